@@ -6,6 +6,7 @@ structured 6-byte buffers, all 64 (p mod 8, n mod 8) classes at large widths, se
 in-situ: the contracts stay armed while real documents decode real packets (thorough: mission replays).
 """
 import os
+import sys
 import random
 
 from vmon import bits, contracts
@@ -13,7 +14,7 @@ from vmon.libutil import monitored
 
 LEVEL = "exploration"
 SHARDS = {"quick": 8, "thorough": 16}
-MUST = ["read_as_int.evaluations", "read_as_bytes.evaluations", "insitu.reads", "wide.reads", "deep.reads", "debug_logging.reads", "after_overlong.reads", "indomain.boundary_reads", "stateful.reads"]
+MUST = ["read_as_int.evaluations", "read_as_bytes.evaluations", "insitu.reads", "wide.reads", "deep.reads", "mutable_source.reads", "int_subclass_widths.reads", "debug_logging.reads", "after_overlong.reads", "indomain.boundary_reads", "stateful.reads"]
 RULE = ("every read_as_int/read_as_bytes/_extract_bits call made by the workload is checked by a postcondition "
         "against int(bitstring[p:p+n],2); workload = all (p,n) with p+n<=48 over 24 structured 6-byte buffers "
         "(exhaustive), all 64 (p%8,n%8) classes at widths up to 4096 bytes, seeded random reads, sequential "
@@ -140,6 +141,43 @@ def run(ctx):
                 getattr(ok2, meth)(n)
                 ctx.count("evaluations", 2)
                 ctx.count("after_overlong.reads", 2)
+    # ---- 2a-3. the packet object is a snapshot of the bytes it was built from: built from a MUTABLE source (bytearray, a memoryview
+    #             window of a reused receive buffer) it keeps returning the original bits after the source has been overwritten -----
+    for trial in range(ctx.size(40, 2000)):
+        j += 1
+        if not ctx.mine(j):
+            continue
+        ln = rng.choice([7, 8, 16, 40])
+        source = bytearray(rng.getrandbits(8) for _ in range(ln + 4))
+        how = trial % 3
+        r = RPD(source) if how == 0 else RPD(memoryview(source)[2:2 + ln]) if how == 1 else RPD(bytes(source))
+        for b_ in range(len(source)):
+            source[b_] ^= 0xFF                      # the receive buffer is reused
+        for _ in range(4):
+            p_ = rng.randrange(0, 8 * len(r))
+            n_ = rng.randrange(0, min(40, 8 * len(r) - p_) + 1)
+            r.pos = p_
+            getattr(r, rng.choice(("read_as_int", "read_as_bytes")))(n_)      # judged against bytes(r) by the postcondition
+            ctx.count("evaluations")
+            ctx.count("mutable_source.reads")
+    # ---- 2a-4. the width may be any integer object: the library's own IntParameter / BoolParameter (a parsed length item), an
+    #              IntEnum member, a bool ---------------------------------------------------------------------------------------
+    import enum
+    from space_packet_parser import common as _common
+
+    class _W(enum.IntEnum):
+        NINE = 9
+        SIXTEEN = 16
+    for w_ in (_common.IntParameter(12, 99), _common.IntParameter(8), _common.BoolParameter(True, 7), True, _W.NINE, _W.SIXTEEN, _common.IntParameter(0)):
+        for meth in ("read_as_int", "read_as_bytes"):
+            r = RPD(bytes(rng.getrandbits(8) for _ in range(6)))
+            r.pos = 5
+            s_ = monitored(getattr(r, meth), w_)
+            ctx.count("evaluations")
+            ctx.count("int_subclass_widths.reads")
+            if s_.exc is not None:
+                ctx.violation(f"{meth}/exception/{type(s_.exc).__name__}/int-subclass-width", f"{meth}({w_!r}) [a {type(w_).__name__}] raised {s_.exc!r}",
+                              {"width_type": type(w_).__name__, "width": int(w_)})
     # ---- 2b. every in-domain read must RETURN (an exception on p+n <= 8*len is a violation): boundary shapes -----------------
     for ln in (0, 1, 2, 6):
         buf = bytes(rng.getrandbits(8) for _ in range(ln))
@@ -233,7 +271,19 @@ def run(ctx):
                         if o_ + n_ > 8 * len(big):
                             continue
                         r.pos = o_
-                        getattr(r, meth)(n_)
+                        # the interpreter's default limit on int -> decimal str conversion is in force while the library runs (the
+                        # harness lifts it only for its own witnesses): a wide read must not depend on formatting its value
+                        lim = sys.get_int_max_str_digits() if hasattr(sys, "get_int_max_str_digits") else None
+                        if lim is not None:
+                            sys.set_int_max_str_digits(4300)
+                        try:
+                            s_w = monitored(getattr(r, meth), n_)
+                        finally:
+                            if lim is not None:
+                                sys.set_int_max_str_digits(lim)
+                        if s_w.exc is not None:
+                            ctx.violation(f"{meth}/exception/{type(s_w.exc).__name__}/wide", f"{meth}({n_}) at bit {o_} raised {str(s_w.exc)[:200]!r}", {"pos": o_, "nbits": n_})
+                            continue
                         fresh = RPD(big[:(o_ + n_ + 7) // 8 + 1])
                         fresh.pos = o_
                         getattr(fresh, meth)(n_)
